@@ -262,6 +262,9 @@ func (ctx *Ctx) modifiesAllowed(vc *VC, fr *Frame, fc *FuncContract) (map[Sort][
 			per[s] = append(per[s], cond)
 		}
 	}
+	for _, s := range vc.modifiedSorts(env, fc) {
+		per[s] = append(per[s], True)
+	}
 	if fc.Appends != nil {
 		b, es, n, err := vc.appendParts(env, fc.Appends)
 		if err != nil {
